@@ -242,7 +242,7 @@ func actionsDeep(stmts []ast.Stmt, prefix string) []string {
 }
 
 // extraGens: further Gen files, added as properties are built.
-func extraGens(root, st *pkg) []*genFile { return []*genFile{genRecv(root), genSession(root), genAuth(root, st), genComponent(root, st), genKeepalive(root), genSupervisor(root), genC01(st), genRouter(root), genDispatch(st), genSendPath(root)} }
+func extraGens(root, st *pkg) []*genFile { return []*genFile{genRecv(root), genSession(root), genAuth(root, st), genComponent(root, st), genKeepalive(root), genSupervisor(root), genC01(st), genRouter(root), genDispatch(st), genSendPath(root), genQueue(root, st)} }
 
 // assignsTo lists, in source order, the right-hand sides assigned to the selector `sel` (e.g. "t.isSecure") in fn,
 // interleaved with the calls named in `marks` (so that the order "Handshake, isSecure=false, VerifyHostname,
@@ -413,5 +413,72 @@ func genSendPath(root *pkg) *genFile {
 	} {
 		g.def(f[0], "List String", leanStrList(fnActions(root.fn(f[1], f[2]))), "flattened actions of "+f[1]+"."+f[2])
 	}
+	return g
+}
+
+// kvFields lists `Key: value` pairs of the composite literals whose type prints as typ inside fn.
+func kvFields(fd *ast.FuncDecl, typ string) []string {
+	var out []string
+	if fd == nil {
+		return []string{"<missing function>"}
+	}
+	ast.Inspect(fd.Body, func(n ast.Node) bool {
+		cl, ok := n.(*ast.CompositeLit)
+		if !ok || exprString(cl.Type) != typ {
+			return true
+		}
+		for _, e := range cl.Elts {
+			if kv, ok := e.(*ast.KeyValueExpr); ok {
+				out = append(out, exprString(kv.Key)+"="+exprString(kv.Value))
+			}
+		}
+		return true
+	})
+	return out
+}
+
+// typeSwitchCases lists the case type lists of the type switches in fn ("default" for the default arm).
+func typeSwitchCases(fd *ast.FuncDecl) []string {
+	var out []string
+	if fd == nil {
+		return []string{"<missing function>"}
+	}
+	ast.Inspect(fd.Body, func(n ast.Node) bool {
+		ts, ok := n.(*ast.TypeSwitchStmt)
+		if !ok {
+			return true
+		}
+		for _, cc := range ts.Body.List {
+			cl := cc.(*ast.CaseClause)
+			if cl.List == nil {
+				out = append(out, "default")
+				continue
+			}
+			var t []string
+			for _, e := range cl.List {
+				t = append(t, exprString(e))
+			}
+			out = append(out, strings.Join(t, "|"))
+		}
+		return true
+	})
+	return out
+}
+
+func genQueue(root, st *pkg) *genFile {
+	g := newGen("Queue")
+	for _, m := range []string{"Push", "Pop", "PopN", "Peek", "PeekN", "Empty"} {
+		g.def("conds"+m, "List String", leanStrList(ifConds(st.fn("UnAckQueue", m))), "if conditions of UnAckQueue."+m)
+		g.def("acts"+m, "List String", leanStrList(fnActions(st.fn("UnAckQueue", m))), "flattened actions of UnAckQueue."+m)
+	}
+	g.def("sendMissing", "List String", leanStrList(fnActions(root.fn("", "SendMissingStz"))), "flattened actions of SendMissingStz")
+	g.def("sendMissingConds", "List String", leanStrList(ifConds(root.fn("", "SendMissingStz"))), "if conditions of SendMissingStz")
+	g.def("resendStz", "List String", leanStrList(fnActions(root.fn("", "resendStz"))), "flattened actions of resendStz")
+	g.def("clientSendTypeSwitch", "List String", leanStrList(typeSwitchCases(root.fn("Client", "Send"))), "type switch of Client.Send: what is never stored")
+	g.def("notImplementedErr", "List String", leanStrList(kvFields(root.fn("", "iqNotImplemented"), "stanza.Err")), "fields of the error built by iqNotImplemented")
+	g.def("nameMatcherCases", "List String", leanStrList(typeSwitchCases(root.fn("nameMatcher", "Match"))), "type switch of nameMatcher.Match")
+	g.def("typeMatcherCases", "List String", leanStrList(typeSwitchCases(root.fn("nsTypeMatcher", "Match"))), "type switch of nsTypeMatcher.Match")
+	g.def("routeMatch", "List String", leanStrList(fnActions(root.fn("Route", "Match"))), "flattened actions of Route.Match")
+	g.def("routerMatch", "List String", leanStrList(fnActions(root.fn("Router", "Match"))), "flattened actions of Router.Match")
 	return g
 }
